@@ -25,7 +25,21 @@ META = dict(
 def tasks(tier):
     ts = [Task('props.C03:t_scaling', name='C03/scaling-lemmas', timeout=600),
           Task('props.wire:run', name='C03/wire.compute_dt', fname='c03_compute_dt', timeout=300)]
+    for K in (1, 2, 3, 4, 5):
+        ts.append(Task('props.C03:t_step', name='C03/wire.driver-step.%d' % K, K=K, timeout=600))
     return ts + bounded_tasks('C03', tier)
+
+
+def t_step(K):
+    """the time-step rule receives each population's own (nu, [m], gamma, h): clause compute_dt-args of the one-step driver contract (C02)"""
+    from contracts import py_wiring as W
+    rs = W.c02_driver_step(K, ())
+    out = []
+    for r in rs:
+        if 'compute_dt' in r['id'] or r['verdict'] != 'proved':
+            r['id'] = r['id'].replace('C02/', 'C03/', 1)
+            out.append(r)
+    return out
 
 
 def t_scaling():
